@@ -326,6 +326,43 @@ def walk(spec):
         yield from walk(c)
 
 
+def listify_sets(spec):
+    """The same type with every set-like node replaced by a list: the reference dump of its values is the documented
+    input shape for the sets too, also where the set's elements load to unhashable values (Set[Any], Set[List[int]])."""
+    tag = spec[0]
+    if tag in ("set", "frozenset") or (tag == "abc" and spec[1] in ("Set", "MutableSet")):
+        return ["list", listify_sets(spec[2] if tag == "abc" else spec[1]), "typing"]
+    if tag in ("newtype", "annotated", "alias", "list", "vtuple", "deque", "optional"):
+        return [tag, listify_sets(spec[1]), *spec[2:]]
+    if tag == "abc":
+        return [tag, spec[1], listify_sets(spec[2]), *spec[3:]]
+    if tag in ("tuple", "union"):
+        return [tag, [listify_sets(c) for c in spec[1]], *spec[2:]]
+    if tag in ("dict", "defaultdict", "mapping", "mutablemapping"):
+        return [tag, spec[1], listify_sets(spec[2]), *spec[3:]]
+    if tag == "model":
+        return [tag, {**spec[1], "fields": [{**f, "t": listify_sets(f["t"])} for f in spec[1]["fields"]]}]
+    return spec
+
+
+def has_set_node(spec) -> bool:
+    return any(s[0] in ("set", "frozenset") or (s[0] == "abc" and s[1] in ("Set", "MutableSet")) for s in walk(spec))
+
+
+def near_valid_possible(spec) -> bool:
+    """Can canonical values of the type be generated and reference-dumped (all union cases dispatchable by class)?"""
+    for s in walk(spec):
+        if s[0] != "union":
+            continue
+        seen: set = set()
+        for c in s[1]:
+            sh = shapes(c, True)
+            if not union_case_dumpable(c) or seen & sh:
+                return False
+            seen |= sh
+    return True
+
+
 def depth(spec) -> int:
     ch = children(spec)
     return 1 + (max(map(depth, ch)) if ch else 0)
@@ -543,7 +580,7 @@ class TypeGen:
     def __init__(self, *, models=True, unions=True, rich_scalars=True, enums=True, literals=True, wrappers=True,
                  any_types=True, abcs=True, max_depth=3, model_kinds=("dataclass", "namedtuple", "typeddict", "attrs"),
                  recursive_models=True, io_types=True, lookalike_literals=True, dumpable_unions=True,
-                 disjoint_unions=True):
+                 disjoint_unions=True, unhashable_set_elems=False):
         self.models = models
         self.unions = unions
         self.rich = rich_scalars
@@ -562,6 +599,9 @@ class TypeGen:
         # TypedDict, ByteString, PathLike and IO[bytes] cannot be union cases when the type is to be dumped.
         self.dumpable_unions = dumpable_unions
         self.disjoint_unions = disjoint_unions   # False: cases may overlap (only for oracles that do not depend on it)
+        # True: a third of the sets get an element type whose loaded values can be unhashable (Set[Any], Set[List[int]]):
+        # only for load-only checks, such a type has no values of its own
+        self.unhashable_set_elems = unhashable_set_elems
 
     def strategy(self):
         return self._root()
@@ -623,14 +663,16 @@ class TypeGen:
         if kind == "list":
             return ["list", draw(sub()), sp2]
         if kind in ("set", "frozenset"):
-            return [kind, draw(self._t(d - 1, counter, open_models, True)), sp2]
+            h = not (self.unhashable_set_elems and not hashable and draw(st.integers(0, 2)) == 0)
+            return [kind, draw(self._t(d - 1, counter, open_models, h)), sp2]
         if kind == "vtuple":
             return ["vtuple", draw(sub()), sp2]
         if kind == "deque":
             return ["deque", draw(sub())]
         if kind == "abc":
             name = draw(st.sampled_from(list(ABC_IMPL)))
-            inner = draw(self._t(d - 1, counter, open_models, True)) if name in ("Set", "MutableSet") else draw(sub())
+            h = not (self.unhashable_set_elems and not hashable and draw(st.integers(0, 2)) == 0)
+            inner = draw(self._t(d - 1, counter, open_models, h)) if name in ("Set", "MutableSet") else draw(sub())
             return ["abc", name, inner, sp2]
         if kind == "tuple":
             n = draw(st.integers(0, 3))
